@@ -62,8 +62,10 @@ def run(ctx):  # noqa: C901, PLR0912, PLR0915
             nm = call_name(c) or ''
             if nm.startswith('send_') or nm.startswith('store_'):
                 n_calls += 1
-                args = [unparse(a) for a in c.args] + [unparse(k.value) for k in c.keywords]
-                ok = any(a == vg or a.startswith(f'{vg}.') for a in args) and \
+                # aliases of the group / of one of its fields are followed back to the read (origin_text)
+                args = [g.origin_text(n, a) for a in c.args] + [g.origin_text(n, k.value) for k in c.keywords]
+                vgo = unparse(reads[0][1]) if reads else vg
+                ok = any(a in (vg, vgo) or a.startswith((f'{vg}.', f'{vgo}.')) for a in args) and \
                     bool(reads) and g.dominates(reads[0][0], n)
                 ctx.ob('C04.R1', f'{nm} gets the commit version', ok,
                        f'{nm} is called with the version group read for this commit', fi=se, node=c, witness=args)
